@@ -243,6 +243,24 @@ def _run_special(ctx, spec, rng):
         if res is not None:
             ctx.check("O2:helstrom", None, dev=abs(float(np.real(res[0])) - (0.5 + 0.5 * np.sqrt(1 - ov ** 2))), tol=TOLV, sig=("pure-pair", d, cplx), nt=True,
                       mech="state_distinguishability:helstrom-mismatch", detail={"value": res[0], "overlap": ov})
+    elif (r // 4) % 2 == 1 and d >= 3:  # an orthonormal set except for ONE overlapping pair, sitting at arbitrary list positions
+        n = int(rng.integers(3, d + 1))
+        u = gen.haar(rng, d, real=not cplx)
+        vecs = [u[:, i].copy() for i in range(n)]
+        i, j = sorted(int(v) for v in rng.permutation(n)[:2])
+        vecs[j] = (vecs[i] + vecs[j]) / np.sqrt(2)
+        order = [int(v) for v in rng.permutation(n)]
+        if (r // 8) % 3 == 0:
+            order = sorted(order, key=lambda t: (t == j, t != i))  # the overlapping pair first and last
+        vecs = [vecs[t] for t in order]
+        pi, pj = order.index(i), order.index(j)
+        p = None if r % 3 else list(gen.prior(rng, n))
+        form = (lambda v: v.copy()) if (r // 2) % 2 else (lambda v: v.reshape(-1, 1).copy())
+        ctx.evals["solver-call"] += 1
+        ans = ctx.call(is_distinguishable, [form(v) for v in vecs], p, solver=True)
+        if ans is not FAILED:
+            ctx.check("O4:is_distinguishable", bool(ans) is False, sig=("one-overlapping-pair", d, cplx, abs(pi - pj) == 1), nt=True,
+                      mech="is_distinguishable:accepts-set-with-one-overlapping-pair", detail={"n": n, "d": d, "positions": [pi, pj], "overlap": float(np.sqrt(0.5))})
     else:  # clearly non-orthogonal => not distinguishable
         n = int(rng.integers(2, 5))
         vecs = [gen.unit(rng, d, cplx) for _ in range(n)]
